@@ -1074,7 +1074,14 @@ def copy_chain_sources(body, op_or_local, through_calls=()):
         ds = [d for d in defs.get(l, []) if d.kind != 'mutarg' and d.via is None]
         if not ds:
             out.append(('undef', l, path))
+        want = path[0] if path and str(path[0]).startswith('@') else None
         for d in ds:
+            if want is not None:
+                # only the definitions that can build the variant whose payload is followed
+                if d.kind == 'call' and d.call.defp == 'std::ops::FromResidual::from_residual' and want in ('@Ok', '@Some', '@Continue'):
+                    continue
+                if d.kind == 'assign' and not d.lhs['p'] and d.rv['k'] == 'agg' and 'vi' in d.rv and '@' + d.rv['variant'] != want:
+                    continue
             if d.kind == 'assign':
                 if d.lhs['p']:
                     # partial write: only relevant if path matches prefix; keep conservative
@@ -1102,6 +1109,13 @@ def copy_chain_sources(body, op_or_local, through_calls=()):
                         else:
                             pl = op_place(o)
                             go(pl['l'], field_path(pl) + path[1:])
+                    elif 'vi' in rv and len(path) >= 2 and path[0] == '@' + rv['variant'] and path[1] in rv.get('fields', []):
+                        o = rv['ops'][rv['fields'].index(path[1])]
+                        if 'c' in o:
+                            out.append(('const', o['c'].get('s'), o['c']))
+                        else:
+                            pl = op_place(o)
+                            go(pl['l'], field_path(pl) + path[2:])
                     else:
                         out.append(('agg', rv, path))
                 else:
@@ -1114,7 +1128,11 @@ def copy_chain_sources(body, op_or_local, through_calls=()):
                         out.append(('const', a['c'].get('s'), a['c']))
                     else:
                         pl = op_place(a)
-                        go(pl['l'], field_path(pl) + path)
+                        p2 = path
+                        if c.defp == 'std::ops::Try::branch' and tuple(path[:2]) == ('@Continue', '0'):
+                            sty = c.self_ty or ''
+                            p2 = (('@Ok', '0') if sty.startswith('std::result::Result<') else ('@Some', '0')) + tuple(path[2:])
+                        go(pl['l'], field_path(pl) + p2)
                 else:
                     out.append(('call', c, path))
 
